@@ -26,9 +26,14 @@ from deap import algorithms, base, creator, gp, tools
 ANCHORS = [("deap/algorithms.py", ["varAnd", "varOr"]),
            ("deap/base.py", ["Toolbox", "Fitness.__deepcopy__", "Fitness.delValues", "Fitness.valid"]),
            ("deap/creator.py", []),
-           ("deap/gp.py", ["PrimitiveTree.__deepcopy__"])]
+           ("deap/gp.py", ["PrimitiveTree.__deepcopy__"]),
+           ("deap/tools/support.py", ["History"])]
 LEVEL = "proof"
-RULE = ("functional operators: every representation x all 8 combinations of returned-object identity x mutation in place / on a copy x varAnd, varOr; "
+RULE = ("histories: 1-4 generations of varAnd/varOr with operators decorated by one tools.History() (every representation x mate / mutate / both decorated x "
+        "1,2,3 generations x with / without individuals carrying an index of another history; functional and staticLimit wrappers; getGenealogy queries with and "
+        "without depth bound); call histories on ONE class whose genes change structure (flat / nested lists / mixed / empty nested, 8 fixed orders x 2 crossovers "
+        "+ random), one toolbox reused; fitness with INTEGER weights and exact integer objectives beyond 2**53 (every representation x varAnd, varOr x probabilities "
+        "leaving clones untouched); functional operators: every representation x all 8 combinations of returned-object identity x mutation in place / on a copy x varAnd, varOr; "
         "structured: every representation x every (mate, mutate) pair x (cxpb, mutpb) in the extremes "
         "{(0,0),(1,0),(0,1),(1,1),(1/2,1/2)} x population sizes 0..4 for varAnd and varOr; random: sizes 0..8 "
         "(distinct / repeated / one object repeated; evaluated / unevaluated / mixed; duplicate genomes; bystander "
@@ -51,7 +56,10 @@ ASSUMPTIONS = ["population of size >= 2 whenever varOr can take the crossover br
                "lambda > 0: random.sample / random.choice raise otherwise, before any offspring exists",
                "nodes of a gp.PrimitiveTree (Primitive / Terminal objects of the primitive set) are immutable symbols: "
                "deepcopy of a tree shares them by design, they are not counted as mutable state"]
-EXPLANATION = ("Theorems C02.* hold for every population (repeats included), every decision tape and every operator pair "
+EXPLANATION = ("tools.History (Core/History.lean) is part of the model: a History-decorated operator pair meets OpContract "
+               "(C02.history_decorator_meets_contract), so every clause holds with it (C02.varAnd_history_ops / varOr_history_ops); what update / getGenealogy "
+               "build is proved (history_entries_fresh, history_index_monotone, genealogy_tree_parents, getGenealogy_*) and replayed on real multi-generation "
+               "histories (protocol op `hist`). Theorems C02.* hold for every population (repeats included), every decision tape and every operator pair "
                "meeting OpContract; C02.library_ops_meet_contract proves OpContract for every library operator model (C09, "
                "C10, C11 operators lifted in place, gp.staticLimit as a wrapper), so C02.varAnd_library_ops / varOr_library_ops "
                "carry no operator hypothesis. The correspondence ties Core/Variation.lean to deap.algorithms.varAnd/varOr by "
@@ -101,8 +109,13 @@ def _setup():
         creator.create("C02FitMO", base.Fitness, weights=(-1.0, 1.0))
     if not hasattr(creator, "C02FitCons"):
         creator.create("C02FitCons", base.ConstrainedFitness, weights=(1.0,))
+    if not hasattr(creator, "C02FitIntW"):
+        # INTEGER weights: with exact integer objectives beyond 2**53 the weighted values are Python ints that no double holds,
+        # so a clone's fitness is the parent's only if it is copied, not recomputed through float arithmetic (seeded C02-r7m2)
+        creator.create("C02FitIntW", base.Fitness, weights=(1, -1))
     cls = {}
-    for fk, fc in (("max", creator.C02FitMax), ("mo", creator.C02FitMO), ("cmax", creator.C02FitCons)):
+    for fk, fc in (("max", creator.C02FitMax), ("mo", creator.C02FitMO), ("cmax", creator.C02FitCons),
+                   ("intw", creator.C02FitIntW)):
         for rep, b, kw in (("list", list, {}), ("array", array.array, {"typecode": "d"}),
                            ("numpy", numpy.ndarray, {}), ("tree", gp.PrimitiveTree, {}), ("es", list, {}),
                            ("perm", list, {})):
@@ -272,7 +285,7 @@ def build(rep, fk, spec):
     else:
         ind = c([float(x) for x in spec["g"]])
     if spec["fit"] is not None:
-        ind.fitness.values = tuple(float(v) for v in spec["fit"])
+        ind.fitness.values = tuple(int(v) for v in spec["fit"]) if fk == "intw" else tuple(float(v) for v in spec["fit"])
     if spec.get("cv") is not None:
         ind.fitness.constraint_violation = [bool(x) for x in spec["cv"]]
     if spec.get("extra"):
@@ -688,7 +701,86 @@ def excluded(d):
     return False
 
 
+def statement_oracle(fn, pop, pop_ids, npop, inds, before, before_pop, out, want, touched):
+    """the property statement on the real objects of ONE varAnd / varOr call: `pop` the list that was passed (`pop_ids` the ids of
+    its elements and `npop` its length before the call), `inds` every individual known before the call with its snapshot `before`
+    (`before_pop`: the snapshots of the population's elements), `out` what the call returned, `want` the requested number of offspring,
+    `touched` the ids of the objects that were passed to or handed back by a crossover / mutation"""
+    # ---- oracle: the statement, on the real objects -----------------------------------------
+    orc = None
+    # (1) never modify any individual of the population given (nor the list itself)
+    if [id(x) for x in pop] != pop_ids or len(pop) != npop:
+        orc = "the population list itself was modified"
+    for i, x in enumerate(inds):
+        if orc is None and snap(x) != before[i]:
+            orc = "input individual #%d was modified by %s" % (i, "varAnd" if fn == "and" else "varOr")
+    # (2) exactly the requested number of offspring
+    if orc is None and len(out) != want:
+        orc = "returned %d offspring instead of %d" % (len(out), want)
+    # (3) each offspring independent of (shares no mutable state with) every input
+    if orc is None:
+        in_parts = [mutable_parts(x) for x in inds]
+        for k, o in enumerate(out):
+            if any(o is x for x in inds):
+                orc = "offspring %d is the input object #%d itself" % (k, [j for j, x in enumerate(inds) if x is o][0])
+                break
+            parts, arrs = mutable_parts(o)
+            for j, (pp, pa) in enumerate(in_parts):
+                common = set(parts) & set(pp)
+                if common:
+                    orc = "offspring %d shares a mutable %s with input #%d" % (k, type(parts[common.pop()]).__name__, j)
+                    break
+                if any(numpy.shares_memory(a, b) for a in arrs for b in pa):
+                    orc = "offspring %d shares array memory with input #%d" % (k, j)
+                    break
+            if orc:
+                break
+    # (4) went through crossover or mutation  =>  invalid fitness
+    if orc is None:
+        for k, o in enumerate(out):
+            if id(o) in touched and o.fitness.valid:
+                orc = "offspring %d went through mate/mutate but has the valid fitness %r" % (k, o.fitness.values)
+                break
+    # (4b) "invalid (empty) fitness": nothing of the old fitness is left behind
+    if orc is None:
+        for k, o in enumerate(out):
+            if not o.fitness.valid and (tuple(o.fitness.values) != () or tuple(o.fitness.wvalues) != ()):
+                orc = "offspring %d has an invalid fitness that is not empty: values=%r wvalues=%r" % (
+                    k, o.fitness.values, o.fitness.wvalues)
+                break
+    # (4c) … "invalid (EMPTY)": after a crossover / mutation nothing of the parent's fitness state is left — the fitness
+    # is indistinguishable from a freshly created one of its class (e.g. no constraint_violation record of a
+    # ConstrainedFitness inherited from the parent)
+    if orc is None:
+        for k, o in enumerate(out):
+            if id(o) in touched and not o.fitness.valid:
+                fresh = type(o.fitness)()
+                # public state only (values, and every public attribute such as constraint_violation) — not how the
+                # class stores it internally
+                names = sorted(a for a in set(vars(o.fitness)) | set(vars(fresh)) if not a.startswith("_") and a != "wvalues")
+                left = {a: getattr(o.fitness, a, None) for a in names
+                        if _plain(getattr(o.fitness, a, None)) != _plain(getattr(fresh, a, None))}
+                if left:
+                    orc = "offspring %d went through mate/mutate and its invalid fitness is not empty: it still carries %r" % (k, left)
+                    break
+    # (5) valid fitness  =>  exactly the genotype and the fitness of an input individual
+    if orc is None:
+        par = set((s[1], _plain(x.fitness)) for s, x in zip(before_pop, pop))
+        for k, o in enumerate(out):
+            if o.fitness.valid and (tuple(gene_keys(o)), _plain(o.fitness)) not in par:
+                orc = "offspring %d has a valid fitness %r but no input has this genotype with this fitness" % (k, o.fitness.values)
+                break
+
+    return orc
+
+
 def evaluate(d):
+    if d.get("fn") == "hist":
+        from props import c02_hist
+        return c02_hist.evaluate(d)
+    if d.get("fn") == "seq":
+        from props import c02_seq
+        return c02_seq.evaluate(d)
     fn, rep, fk = d["fn"], d["rep"], d["fk"]
     if excluded(d):
         return Case(d, [], [], None, tag="excluded-domain", nontrivial=False)
@@ -776,71 +868,8 @@ def evaluate(d):
     elif composed:
         ans = cans
 
-    # ---- oracle: the statement, on the real objects -----------------------------------------
-    orc = None
-    want = len(pop) if fn == "and" else lam
-    # (1) never modify any individual of the population given (nor the list itself)
-    if [id(x) for x in pop] != pop_ids or len(pop) != len(d["pop"]):
-        orc = "the population list itself was modified"
-    for i, x in enumerate(inds):
-        if orc is None and snap(x) != before[i]:
-            orc = "input individual #%d was modified by %s" % (i, "varAnd" if fn == "and" else "varOr")
-    # (2) exactly the requested number of offspring
-    if orc is None and len(out) != want:
-        orc = "returned %d offspring instead of %d" % (len(out), want)
-    # (3) each offspring independent of (shares no mutable state with) every input
-    if orc is None:
-        in_parts = [mutable_parts(x) for x in inds]
-        for k, o in enumerate(out):
-            if any(o is x for x in inds):
-                orc = "offspring %d is the input object #%d itself" % (k, [j for j, x in enumerate(inds) if x is o][0])
-                break
-            parts, arrs = mutable_parts(o)
-            for j, (pp, pa) in enumerate(in_parts):
-                common = set(parts) & set(pp)
-                if common:
-                    orc = "offspring %d shares a mutable %s with input #%d" % (k, type(parts[common.pop()]).__name__, j)
-                    break
-                if any(numpy.shares_memory(a, b) for a in arrs for b in pa):
-                    orc = "offspring %d shares array memory with input #%d" % (k, j)
-                    break
-            if orc:
-                break
-    # (4) went through crossover or mutation  =>  invalid fitness
-    if orc is None:
-        for k, o in enumerate(out):
-            if id(o) in rec.touched and o.fitness.valid:
-                orc = "offspring %d went through mate/mutate but has the valid fitness %r" % (k, o.fitness.values)
-                break
-    # (4b) "invalid (empty) fitness": nothing of the old fitness is left behind
-    if orc is None:
-        for k, o in enumerate(out):
-            if not o.fitness.valid and (tuple(o.fitness.values) != () or tuple(o.fitness.wvalues) != ()):
-                orc = "offspring %d has an invalid fitness that is not empty: values=%r wvalues=%r" % (
-                    k, o.fitness.values, o.fitness.wvalues)
-                break
-    # (4c) … "invalid (EMPTY)": after a crossover / mutation nothing of the parent's fitness state is left — the fitness
-    # is indistinguishable from a freshly created one of its class (e.g. no constraint_violation record of a
-    # ConstrainedFitness inherited from the parent)
-    if orc is None:
-        for k, o in enumerate(out):
-            if id(o) in rec.touched and not o.fitness.valid:
-                fresh = type(o.fitness)()
-                # public state only (values, and every public attribute such as constraint_violation) — not how the
-                # class stores it internally
-                names = sorted(a for a in set(vars(o.fitness)) | set(vars(fresh)) if not a.startswith("_") and a != "wvalues")
-                left = {a: getattr(o.fitness, a, None) for a in names
-                        if _plain(getattr(o.fitness, a, None)) != _plain(getattr(fresh, a, None))}
-                if left:
-                    orc = "offspring %d went through mate/mutate and its invalid fitness is not empty: it still carries %r" % (k, left)
-                    break
-    # (5) valid fitness  =>  exactly the genotype and the fitness of an input individual
-    if orc is None:
-        par = set((s[1], _plain(x.fitness)) for s, x in zip(before_pop, pop))
-        for k, o in enumerate(out):
-            if o.fitness.valid and (tuple(gene_keys(o)), _plain(o.fitness)) not in par:
-                orc = "offspring %d has a valid fitness %r but no input has this genotype with this fitness" % (k, o.fitness.values)
-                break
+    orc = statement_oracle(fn, pop, pop_ids, len(d["pop"]), inds, before, before_pop, out,
+                           len(pop) if fn == "and" else lam, rec.touched)
 
     br = ""
     if fn == "and":
@@ -881,13 +910,17 @@ def mk_genome(rng, rep):
 
 
 def mk_fit(rng, fk):
+    if fk == "intw":
+        # exact integer objectives, most of them not representable as a double (odd, beyond 2**53)
+        big = rng.choice([2 ** 60, 2 ** 53, -(2 ** 62), 2 ** 70]) + 2 * rng.randint(0, 500) + 1
+        return [big if rng.random() < 0.8 else rng.randint(-3, 3), rng.randint(-3, 3)]
     return [rng.randint(-3, 3) for _ in range(2 if fk == "mo" else 1)]
 
 
-def mk_case(rng, fn=None, rep=None, n=None, probs=None, mate=None, mutate=None, lam=None, wrap=None, composed=None):
+def mk_case(rng, fn=None, rep=None, n=None, probs=None, mate=None, mutate=None, lam=None, wrap=None, composed=None, fk=None):
     fn = fn or rng.choice(["and", "or"])
     rep = rep or rng.choice(REPS)
-    fk = rng.choice(["max", "max", "mo", "cmax"])
+    fk = fk or rng.choice(["max", "max", "mo", "cmax", "intw"])
     n = rng.randint(0, 8) if n is None else n
     kind = rng.choice(["distinct", "distinct", "repeat", "same"])
     m = n if kind == "distinct" else (min(n, 1) if kind == "same" else (rng.randint(1, n) if n else 0))
@@ -981,7 +1014,26 @@ def mk_case(rng, fn=None, rep=None, n=None, probs=None, mate=None, mutate=None, 
 
 def generate(tier, rng, mult):
     thorough = tier == "thorough"
+    # stream 0: histories of varAnd / varOr calls with operators decorated by one tools.History() (props/c02_hist.py)
+    from props import c02_hist
+    for d in c02_hist.generate(tier, rng, mult):
+        yield d
+    # stream 0a: call histories on ONE class whose gene structure changes (atomic -> nested -> atomic ...), one toolbox reused
+    from props import c02_seq
+    for d in c02_seq.generate(tier, rng, mult):
+        yield d
     extremes = [(0.0, 0.0), (1.0, 0.0), (0.0, 1.0), (1.0, 1.0), (0.5, 0.5)]
+    # stream 0b: fitness classes with INTEGER weights and exact integer objectives beyond 2**53 — "every offspring that comes back with a
+    # valid fitness has exactly the ... fitness of one of the input individuals": probabilities that leave clones untouched
+    for rep in REPS:
+        for fn in ("and", "or"):
+            for pr in ((0.0, 0.0), (0.3, 0.2), (0.5, 0.5)):
+                for n in (3, 5):
+                    d = mk_case(rng, fn, rep, n, pr, wrap=False, composed=False, lam=rng.choice([3, 5, 8]), fk="intw")
+                    for sp in d["inds"]:
+                        if sp["fit"] is None and rng.random() < 0.7:
+                            sp["fit"] = mk_fit(rng, "intw")
+                    yield d
     # stream 1: "functional" operators — children built from the arguments or from clones of them, with EVERY combination
     # of returned-object identity ((a,b) (n,b) (a,n) (n,n') and the four swapped orders) x mutation in place / on a copy
     for rep in REPS:
@@ -1019,6 +1071,12 @@ def generate(tier, rng, mult):
 
 
 def shrink(d):
+    if d.get("fn") in ("hist", "seq"):
+        from props import c02_hist, c02_seq
+        for e in (c02_hist if d["fn"] == "hist" else c02_seq).shrink(d):
+            yield e
+        return
+
     def ok(e):
         return not excluded(e)
     # drop one population position
